@@ -29,4 +29,4 @@ def run(c):
                      "the packet was forwarded / delivered, or rejected by the egress-interface / link-type rules, or "
                      "took the router-alert slow path; distinct = distinct (abstract packet, disposition, egress, "
                      "scope, SCMP cause) tuples")
-    c.cov["exhaustive"] = bool(th)
+    c.cov["exhaustive"] = False
